@@ -13,7 +13,7 @@ from . import common
 sys.path.insert(0, os.path.join(common.ROOT, "gen"))
 import shapegen as sg  # noqa: E402
 
-PROPERTIES = ["C05", "C06", "C15", "C16"]
+PROPERTIES = ["C05", "C06", "C15", "C16", "C17", "C19"]
 
 FEATURES = ("std",)
 
